@@ -182,6 +182,76 @@ func load(repo string, withSSA bool) (*Ctx, error) {
 			}
 		})
 	}
+	// package-level tables of booleans whose content is known statically and that nothing writes afterwards
+	for _, p := range pkgs {
+		cand := map[*types.Var]*boolTable{}
+		for _, file := range p.Syntax {
+			for _, d := range file.Decls {
+				gd, ok := d.(*ast.GenDecl)
+				if !ok || gd.Tok != token.VAR {
+					continue
+				}
+				for _, sp := range gd.Specs {
+					vs := sp.(*ast.ValueSpec)
+					if len(vs.Names) != 1 || len(vs.Values) != 1 {
+						continue
+					}
+					v, _ := p.TypesInfo.Defs[vs.Names[0]].(*types.Var)
+					if v == nil {
+						continue
+					}
+					if bt := evalBoolTable(p.TypesInfo, vs.Values[0]); bt != nil {
+						cand[v] = bt
+					}
+				}
+			}
+		}
+		if len(cand) == 0 {
+			continue
+		}
+		for _, file := range p.Syntax {
+			ast.Inspect(file, func(n ast.Node) bool {
+				mark := func(e ast.Expr) {
+					for {
+						switch x := ast.Unparen(e).(type) {
+						case *ast.IndexExpr:
+							e = x.X
+							continue
+						case *ast.SliceExpr:
+							e = x.X
+							continue
+						case *ast.Ident:
+							if v, ok := p.TypesInfo.Uses[x].(*types.Var); ok {
+								delete(cand, v)
+							}
+						}
+						return
+					}
+				}
+				switch x := n.(type) {
+				case *ast.AssignStmt:
+					for _, l := range x.Lhs {
+						mark(l)
+					}
+				case *ast.IncDecStmt:
+					mark(x.X)
+				case *ast.UnaryExpr:
+					if x.Op == token.AND {
+						mark(x.X)
+					}
+				case *ast.SliceExpr:
+					mark(x.X) // a slice of the table can be written through
+				}
+				return true
+			})
+		}
+		for v, bt := range cand {
+			if v.Exported() {
+				continue // another package could write it
+			}
+			boolTables[v] = bt
+		}
+	}
 	if withSSA {
 		prog, spkgs := ssautil.AllPackages(pkgs, ssa.InstantiateGenerics)
 		prog.Build()
